@@ -128,7 +128,7 @@ struct Prog {
   int n_static_ops = 0, n_calls = 0, n_switch = 0, n_loops = 0, n_irr = 0, n_if = 0, n_retif = 0, n_fixed = 0, n_partial = 0, n_idiom = 0,
       n_vec = 0, n_mask = 0, n_mem = 0, max_depth = 0, n_excluded = 0,
       n_dispatch = 0, n_disp_jumps = 0, n_disp_sameann = 0, n_disp_unalloc_first = 0, n_disp_redisp = 0, n_disp_after_call = 0, n_disp_call_inside = 0, n_disp_write_in_arm = 0,
-      n_wide = 0, n_wide_xlane = 0, n_wide_lowview = 0, n_wide_mem = 0, n_calls_win = 0, n_calls_vcall = 0, n_calls_widearg = 0;
+      n_wide = 0, n_wide_xlane = 0, n_wide_lowview = 0, n_wide_mem = 0, n_calls_win = 0, n_calls_vcall = 0, n_calls_widearg = 0, n_u32imm_args = 0;
   int n_excl[16] = {};
   bool folded(int i) const { return ((i * 5 + foldsel) & 7) < foldfrac; }
 };
@@ -587,6 +587,9 @@ void Lower::lower(const vh::Op& op, int hk, Node& node) {
       o.o[0] = sig[0] == 'x' ? Opnd::V(d.vec()) : Opnd::R(dd);
       for (int i = 0; sig[1 + i]; i++) {
         int r = d.gp(); int64_t im = d.imm(); int isimm = d.u(5) == 0;
+        // 64-bit arguments that may travel on the stack (5th+ on Win64, 7th+ on SysV): half of the immediates are values that fit uint32 but not
+        // int32 - a single sign-extending `mov qword [rsp+off], imm32` must not be chosen for them
+        if (isimm && sig[1 + i] == 'q' && i >= 4 && (r & 1)) { static const int64_t u32v[] = {0x80000000LL, 0xffffffffLL, 0x80000001LL, 0xfedcba98LL}; im = u32v[(uint64_t(im) >> 3) % 4]; P.n_u32imm_args++; }
         Opnd a;
         if (sig[1 + i] == 'x') a = Opnd::V(umod(int64_t((uint64_t(r) + uint64_t(im)) & 0xFFFF), P.nv));
         else if (isimm) a = Opnd::I(sig[1 + i] == 'd' ? int64_t(uint32_t(im)) : im);
@@ -651,6 +654,9 @@ void Lower::lower(const vh::Op& op, int hk, Node& node) {
       o.o[0] = sig[0] == 'y' ? Opnd::W(d.wid()) : Opnd::R(dd);
       for (int i = 0; sig[1 + i]; i++) {
         int r = d.gp(); int64_t im = d.imm(); int isimm = d.u(5) == 0;
+        // 64-bit arguments that may travel on the stack (5th+ on Win64, 7th+ on SysV): half of the immediates are values that fit uint32 but not
+        // int32 - a single sign-extending `mov qword [rsp+off], imm32` must not be chosen for them
+        if (isimm && sig[1 + i] == 'q' && i >= 4 && (r & 1)) { static const int64_t u32v[] = {0x80000000LL, 0xffffffffLL, 0x80000001LL, 0xfedcba98LL}; im = u32v[(uint64_t(im) >> 3) % 4]; P.n_u32imm_args++; }
         Opnd a;
         if (sig[1 + i] == 'y') a = Opnd::W(umod(int64_t((uint64_t(r) + uint64_t(im)) & 0xFFFF), P.nw));
         else if (isimm) a = Opnd::I(sig[1 + i] == 'd' ? int64_t(uint32_t(im)) : im);
@@ -2396,6 +2402,7 @@ void vh_run(const vh::Case& c, vh::Ctx& ctx) {
         if (ms && live_w + P.nv >= 7) ctx.cls("wide_ms_abi_call_with_7plus_live_vectors");
       }
     }
+    if (P.n_u32imm_args) ctx.cls("call_arg_imm_u32_only_at_stack_position", uint64_t(P.n_u32imm_args));
     if (P.n_calls_win) ctx.cls("call_win64", uint64_t(P.n_calls_win)); if (P.n_calls_vcall) ctx.cls("call_vectorcall", uint64_t(P.n_calls_vcall)); if (P.n_calls_widearg) ctx.cls("call_sysv_ymm_args", uint64_t(P.n_calls_widearg));
   }
 
@@ -2506,7 +2513,9 @@ static int pick_kind(int sel) {
 // Draws the fields of one op (only valid inside a rapidcheck generator).
 static vh::Op draw_op(int kind) {
   vh::Op op; op.push_back(kind);
-  for (int i = 0; i < 16; i++) {
+  // a call consumes four values per argument (up to ten arguments): with 16 values every argument from the fifth on decoded as Imm(1)
+  const int nvals = (kind == H_CALL || kind == H_CALL2) ? 48 : 16;
+  for (int i = 0; i < nvals; i++) {
     int wide = *vh::irange<int>(0, 9);
     if (wide == 0) op.push_back(*rc::gen::resize(1000, rc::gen::arbitrary<int64_t>())); else op.push_back(*vh::irange<int64_t>(0, (1 << 20) - 1));
   }
